@@ -7,10 +7,11 @@ the bodies of Flags.Join/Set/Get/Has/Clear and all flag constants.
 import JsonV.Model.Opts
 import JsonV.Spec.OptMap
 import JsonV.Lemmas.FlagsL
+import JsonV.Lemmas.OptsL
 import JsonV.Gen.Straight
 
 namespace JsonV.Props.C19
-open JsonV.Model JsonV.Spec JsonV.Gen JsonV.Lemmas.FlagsL
+open JsonV.Model JsonV.Spec JsonV.Gen JsonV.Lemmas.FlagsL JsonV.Lemmas.OptsL
 
 /-! ### Tie A: regenerated code = hand model -/
 
@@ -100,5 +101,118 @@ theorem get_has_single (fs : Flags) (i : Nat) (hi : i < 64) :
 example : (Flags.empty.set (flagBit 3 ||| 1#64)).lookup 3 = some true := by decide
 example : ((Flags.empty.set (flagBit 3 ||| 1#64)).join (Flags.empty.set (flagBit 3))).lookup 3 = some false := by
   decide
+
+/-! ### `jsonopts.Struct.Join` / `JoinOptions` = last-wins map (all option lists, any length) -/
+
+/-- One option joined into a struct overrides exactly the entries that option carries. -/
+theorem struct_joinOne_map (dst : Struct) (o : Opt) (ho : JsonV.Spec.Opt.WF o) :
+    abs (dst.joinOne o) = (abs dst).override (optMap o) := abs_joinOne dst o ho
+
+/-- `JoinOptions(srcs...)` is the left-to-right fold of right-biased override: later entries win. -/
+theorem struct_join_map (srcs : List Opt) (h : ∀ o ∈ srcs, JsonV.Spec.Opt.WF o) :
+    abs (joinOptions srcs) = joinSpec srcs := by
+  unfold joinOptions joinSpec
+  rw [abs_join _ srcs h, abs_default]
+
+/-- The result of a join is again a well-formed option value (so it may be nested). -/
+theorem joinOptions_wf (srcs : List Opt) (h : ∀ o ∈ srcs, JsonV.Spec.Opt.WF o) :
+    JsonV.Spec.Opt.WF (.struct (joinOptions srcs)) :=
+  wf_join_struct {} srcs wf_empty h
+
+/-- Passing options separately, joined, or nested gives the same result:
+`Join(xs, JoinOptions(ys), zs) = Join(xs, ys, zs)` for all lists. -/
+theorem nested_flat (dst : Struct) (xs ys zs : List Opt)
+    (hx : ∀ o ∈ xs, JsonV.Spec.Opt.WF o) (hy : ∀ o ∈ ys, JsonV.Spec.Opt.WF o) (hz : ∀ o ∈ zs, JsonV.Spec.Opt.WF o) :
+    abs (dst.join (xs ++ [.struct (joinOptions ys)] ++ zs)) = abs (dst.join (xs ++ ys ++ zs)) := by
+  have hall1 : ∀ o ∈ xs ++ [.struct (joinOptions ys)] ++ zs, JsonV.Spec.Opt.WF o := by
+    intro o ho
+    simp only [List.mem_append, List.mem_singleton] at ho
+    rcases ho with (ho | ho) | ho
+    · exact hx o ho
+    · subst ho; exact joinOptions_wf ys hy
+    · exact hz o ho
+  have hall2 : ∀ o ∈ xs ++ ys ++ zs, JsonV.Spec.Opt.WF o := by
+    intro o ho
+    simp only [List.mem_append] at ho
+    rcases ho with (ho | ho) | ho
+    · exact hx o ho
+    · exact hy o ho
+    · exact hz o ho
+  rw [abs_join _ _ hall1, abs_join _ _ hall2]
+  simp only [List.foldl_append, List.foldl_cons, List.foldl_nil]
+  congr 1
+  have hs : optMap (.struct (joinOptions ys)) = joinSpec ys := by
+    simp only [optMap]; exact struct_join_map ys hy
+  rw [hs]
+  exact (foldl_override _ ys).symm
+
+/-- `GetOption` on a value slot returns exactly what the map holds (zero value and false if absent). -/
+theorem getOption_slot (s : Struct) :
+    s.getOption .indent = (match (abs s).slot .indent with | some v => (v, true) | none => (.bytes [], false)) ∧
+    s.getOption .indentPrefix = (match (abs s).slot .indentPrefix with | some v => (v, true) | none => (.bytes [], false)) ∧
+    s.getOption .byteLimit = (match (abs s).slot .byteLimit with | some v => (v, true) | none => (.int 0, false)) ∧
+    s.getOption .depthLimit = (match (abs s).slot .depthLimit with | some v => (v, true) | none => (.int 0, false)) ∧
+    s.getOption .marshalers = (match (abs s).slot .marshalers with | some v => (v, true) | none => (.ptr 0, false)) ∧
+    s.getOption .unmarshalers = (match (abs s).slot .unmarshalers with | some v => (v, true) | none => (.ptr 0, false)) := by
+  have h1 := has_slot s.flags .indent
+  have h2 := has_slot s.flags .indentPrefix
+  have h3 := has_slot s.flags .byteLimit
+  have h4 := has_slot s.flags .depthLimit
+  have h5 := has_slot s.flags .marshalers
+  have h6 := has_slot s.flags .unmarshalers
+  simp only [Slot.flag] at h1 h2 h3 h4 h5 h6
+  refine ⟨?_, ?_, ?_, ?_, ?_, ?_⟩ <;>
+    simp only [Struct.getOption, abs, slotVal, h1, h2, h3, h4, h5, h6] <;>
+    split <;> simp_all
+
+/-- `GetOption` on a boolean flag `i` (other than StringifyNumbers, bit 18) returns the map entry. -/
+theorem getOption_flag (s : Struct) (i : Nat) (hi : i < 64) (h18 : i ≠ 18) :
+    s.getOption (.flag (flagBit i)) =
+      (.bool (s.flags.values.getLsbD i), s.flags.presence.getLsbD i) := by
+  have hne : (flagBit i == F.stringifyNumbers) = false := by
+    have : F.stringifyNumbers = flagBit 18 := by decide
+    rw [this]
+    apply Bool.eq_false_iff.mpr
+    intro h
+    have h' : flagBit i = flagBit 18 := by simpa using h
+    have := congrArg (fun x => x.getLsbD i) h'
+    simp [flagBit_getLsbD i i hi, flagBit_getLsbD 18 i (by decide), h18] at this
+  simp only [Struct.getOption, hne, Bool.false_and, Bool.and_false, get_bit s.flags i hi, has_bit s.flags i hi]
+  simp
+
+/-- Appending `DefaultOptionsV2` cancels every v1 option: all 21 v1 flags read `false`. -/
+theorem v2_cancels_v1 (dst : Struct) (xs : List Opt) (hx : ∀ o ∈ xs, JsonV.Spec.Opt.WF o)
+    (i : Nat) (hi : F.defaultV1.getLsbD i = true) :
+    (abs (dst.join (xs ++ [.struct defaultOptionsV2]))).flag i = some false := by
+  have hwf : JsonV.Spec.Opt.WF (.struct defaultOptionsV2) := by
+    show defaultOptionsV2.flags.WF
+    decide
+  have hall : ∀ o ∈ xs ++ [.struct defaultOptionsV2], JsonV.Spec.Opt.WF o := by
+    intro o ho
+    simp only [List.mem_append, List.mem_singleton] at ho
+    rcases ho with ho | ho
+    · exact hx o ho
+    · subst ho; exact hwf
+  rw [abs_join _ _ hall]
+  simp only [List.foldl_append, List.foldl_cons, List.foldl_nil, OptMap.override, optMap, abs,
+    defaultOptionsV2, Flags.lookup, hi]
+  simp
+
+/-- The defaults: v2 sets exactly the v1 flags to false, v1 sets them to true; both are well-formed. -/
+theorem defaults_layout : defaultOptionsV2.flags = ⟨F.defaultV1, 0#64⟩ ∧ defaultOptionsV1.flags = ⟨F.defaultV1, F.defaultV1⟩ ∧
+    defaultOptionsV2.flags.WF ∧ defaultOptionsV1.flags.WF := by decide
+
+-- hypotheses are satisfiable by concrete, non-trivial option lists
+example : ∀ o ∈ [Opt.bools (flagBit 19 ||| 1#64), Opt.indent [0x20], Opt.struct defaultOptionsV1],
+    JsonV.Spec.Opt.WF o := by
+  intro o ho
+  simp only [List.mem_cons, List.mem_nil_iff, or_false] at ho
+  rcases ho with h | h | h <;> subst h
+  · intro k; cases k <;> decide
+  · trivial
+  · show defaultOptionsV1.flags.WF; decide
+example : (joinOptions [.indent [0x20], .struct defaultOptionsV2]).getOption .indent = (.bytes [0x20], true) := by decide
+example : (joinOptions [.struct defaultOptionsV1, .struct defaultOptionsV2]).getOption (.flag (flagBit 19)) =
+    (.bool false, true) := by decide
 
 end JsonV.Props.C19
